@@ -394,6 +394,21 @@ Theorem C12_lp_chars_roundtrip :
 Proof. exact lp_chars_roundtrip. Qed.
 Print Assumptions C12_lp_chars_roundtrip.
 
+(* ------------------------------------------------------------------ *)
+(* the reader's keyword / delimiter tables are the REVIEWED ones.  The theorems above hold for whatever tables
+   are generated from reader.cpp and the correspondence follows them too, so a keyword added to the reader
+   (one more accepted label silently read as a section, e.g. `st.`) would move model and implementation
+   together; this tie does not move *)
+Theorem C12_reader_tables_are_the_pinned_ones :
+  SECTION_KEYWORDS = PINNED_SECTION_WORDS /\
+  KEYWORD_INF = [[105; 110; 102; 105; 110; 105; 116; 121]; [105; 110; 102]]%N /\
+  KEYWORD_FREE = [[102; 114; 101; 101]]%N /\
+  SINGLE_CHAR_TOKENS = [91; 93; 60; 62; 61; 58; 43; 94; 47; 42; 45]%N /\
+  SKIP_LINE_CHARS = [92; 59; 10]%N /\ BLANK_CHARS = [32; 9]%N /\
+  IDENT_DELIMS = [9; 10; 92; 58; 43; 60; 62; 94; 61; 32; 47; 45; 42; 91; 93]%N.
+Proof. exact keyword_tables_pinned. Qed.
+Print Assumptions C12_reader_tables_are_the_pinned_ones.
+
 (* ================================================================== *)
 (* hypotheses are satisfiable on non-trivial data *)
 
